@@ -459,6 +459,11 @@ func (w *World) Fetch(t *rapid.T, s *Sess) *imapc.Result {
 	items := []string{"BODY[]", "BODY.PEEK[]", "(FLAGS)", "(UID FLAGS)", "RFC822", "BODY[TEXT]", "ENVELOPE", "BODY[2.1]", "(FLAGS BODY[9])"}
 	if s.Passive {
 		items = []string{"BODY.PEEK[]", "(FLAGS)", "(UID FLAGS)", "ENVELOPE", "BODY.PEEK[TEXT]", "RFC822.SIZE"}
+
+		// in a mailbox opened with EXAMINE nothing a FETCH does changes anything: the forms without PEEK are passive too
+		if s.ReadOnly {
+			items = append(items, "BODY[]", "RFC822", "BODY[TEXT]", "(FLAGS BODY[])")
+		}
 	}
 
 	item := pick(t, "fitem", items)
